@@ -442,7 +442,7 @@ func init() {
 		ID:    "C18",
 		Level: "model_checking",
 		Rule: "all server lists of length 1..5 (quick) / 1..6 (thorough) over {a, b, c:2222, a.dom} (so all duplicate patterns), given as comma list, as server file (newline-terminated, without final newline, CRLF, reached through a symbolic link and through a chain of two) and through a discovery " +
-			"module with the filters none, /a/, /^c/, /x/, /./; every random number the shuffle draws is an environment choice and ALL answer sequences are explored " +
+			"module with the filters none, /a/, /^c/, /x/, /./; all lists of length 1..3 over {a, the EMPTY entry, b:2222} as comma list and through the module with the filters none, //, /./, /.*/, /^$/, /a/, /.?/, /^/ (an empty entry matches everything but /./); every random number the shuffle draws is an environment choice and ALL answer sequences are explored " +
 			"(complete tree, no bound); oracle: returned multiset == distinct entries matching the filter; plus, end to end, a real dcat over every list of <=3 entries (every entry an in-process server): each distinct server delivers the file exactly once; and a following client whose connections are all dropped re-connects only to the listed host:port entries (real TCP listeners, virtual time); a server file and a comma list of 3000 entries (2500 distinct); entries with and without a port under a non-default configured port; a server list that can be read only once (a pipe, /dev/fd/N); and a dcat over more unreachable servers than it connects to at a time (CPUs-1, +1, +5 entries, one connection per CPU) contacts each exactly once and ends; distinct = distinct (case, returned order) pairs",
 		Assumptions: []string{"math/rand is replaced by an explorer-owned choice; regexp is trusted"},
 		Run: func(c *Ctx) {
@@ -477,6 +477,43 @@ func init() {
 					})
 					if len(l) == 3 && cs.Source == "module" && cs.Filter == "/a/" {
 						c.Sample(cs)
+					}
+				}
+			}
+			// lists with EMPTY entries ("a,,b", a trailing comma, the empty list) and the filters that match "everything":
+			// an empty entry is an entry like any other - it matches //, /.*/ and /^$/ but not /./
+			{
+				var small [][]string
+				var rec func(cur []string)
+				rec = func(cur []string) {
+					if len(cur) > 0 {
+						small = append(small, append([]string{}, cur...))
+					}
+					if len(cur) == 3 {
+						return
+					}
+					for _, e := range []string{"a", "", "b:2222"} {
+						rec(append(cur, e))
+					}
+				}
+				rec(nil)
+				for _, l := range small {
+					cases := []c18Case{{"comma", l, ""}}
+					for _, f := range []string{"", "//", "/./", "/.*/", "/^$/", "/a/", "/.?/", "/^/"} {
+						cases = append(cases, c18Case{"module", l, f})
+					}
+					for _, cs := range cases {
+						if !c.Mine() {
+							continue
+						}
+						sub := *c
+						sub.Shard, sub.NShards = 0, 1
+						sub.Explore(c18Scenario(cs), -1, func(msg string, v *explore.Violation) string {
+							if strings.HasPrefix(msg, "panic") {
+								return "panic"
+							}
+							return "wrong-server-set"
+						})
 					}
 				}
 			}
